@@ -2,6 +2,7 @@
   Helper lemmas for `quantise` (Props/AbsTie2.lean): the generated `quantise` against the hand model of Model/Quantise.lean.
 -/
 import SCoda.Lemmas.AbsTie2LI
+import SCoda.Model.QuantiseS
 import SCoda.Lemmas.AbsTie2LC
 namespace SCoda.AbsTie2L
 open SCoda SCoda.Gen.Abs2
@@ -858,11 +859,17 @@ theorem erase_amapV (f : ν → ν') (d : Assoc κ ν) (k : κ) : (amapV f d).er
     · simp only [List.map_cons, ih]
 end
 
-theorem quantise_spec (h0 : Heap) (refs : List Nat) (steps : List Int) (hrefs : ∀ r ∈ refs, r < h0.length)
-    (hok : ∀ m ∈ h0, m.ch ≠ pyNone) (hnd : refs.Nodup) (hpos : ∀ s ∈ steps, 0 < s) :
-    PostOf (SCoda.quantise steps (deref h0 refs)) (Gen.Abs2.quantise h0 refs (some steps)) := by
+/-- (source repaired for D41: the generated text begins with `normalise_absolute()`; the model is `quantiseS` = the walk on the sorted
+    list.  The loops are then those of the unrepaired text with `sortRefs h0 refs0` for the references.) -/
+theorem quantise_spec (h0 : Heap) (refs0 : List Nat) (steps : List Int) (hrefs0 : ∀ r ∈ refs0, r < h0.length)
+    (hok : ∀ m ∈ h0, m.ch ≠ pyNone) (hnd0 : refs0.Nodup) (hpos : ∀ s ∈ steps, 0 < s) :
+    PostOf (SCoda.quantiseS steps (deref h0 refs0)) (Gen.Abs2.quantise h0 refs0 (some steps)) := by
   unfold Gen.Abs2.quantise
-  simp only [Option.isNone_some, Bool.false_eq_true, if_false]
+  simp only [Option.isNone_some, Bool.false_eq_true, if_false, normaliseAbsolute_eq, ViewTieL.ok_bind]
+  have hrefs : ∀ r ∈ sortRefs h0 refs0, r < h0.length := fun r hr => hrefs0 r ((mem_isort _ _ _).1 hr)
+  have hnd : (sortRefs h0 refs0).Nodup := (isort_perm _ refs0).nodup_iff.2 hnd0
+  rw [SCoda.quantiseS, SCoda.normaliseAbs, ← deref_sortRefs]
+  generalize sortRefs h0 refs0 = refs at hrefs hnd ⊢
   refine forIn_relE_bind (fun pre b s => QRel h0 pre b s) (fun s r => qStep steps s (hGet h0 r)) _ _ (PostOf (SCoda.quantise steps (deref h0 refs))) refs
     ?hstep (h0, [], [], []) {} ?hinit ?hok ?herr
   case hinit =>
